@@ -66,3 +66,6 @@ impl<V> BTreeMap<u64, V> {
     #[verifier::external_body]
     pub fn is_empty(&self) -> (r: bool) ensures r == (btree_view(*self).dom() =~= vstd::set::Set::<u64>::empty()) { unimplemented!() }
 }
+/// weak spec (enough to type-check mutants; nothing about WHICH elements stay beyond being old elements in order is claimed)
+pub assume_specification<T, A: core::alloc::Allocator, F: FnMut(&T) -> bool> [Vec::<T, A>::retain] (v: &mut Vec<T, A>, f: F)
+    ensures final(v)@.len() <= old(v)@.len();
